@@ -12,15 +12,17 @@ Open Scope Z_scope.
 (** ** C10_header_fields *)
 
 (** The k-th Initial packet a flight produces — for every spec, every ClientHello length, every
-    builder kind and output, both the per-datagram path and a pre-planned flight — carries
-    packet number initialPN + k, the packet-number length PeekPacketNumber selects for that
-    number, a header of exactly the bytes the connection ID lengths, token and packet-number
+    builder kind and output, both the per-datagram path and a pre-planned flight, on a first
+    connection (c_first = initialPN InitPacketNumber) and on the one a Dial re-creates after
+    Version Negotiation (c_first = the previous connection's next packet number) — carries
+    packet number c_first + k, the packet-number length PeekPacketNumber selects for that
+    number with the list indexed from the SPEC's InitPacketNumber (not from c_first), a header of exactly the bytes the connection ID lengths, token and packet-number
     length add up to, a Length field of pnLen + |payload| + 16; it is sized by
     InitialPackets[k] (last entry repeating) whatever the builder kind; packet and datagram
     stay inside the 1452-byte packet buffer and releasing the buffer never panics. *)
 Theorem C10_header_fields : forall c helloLen plens k pn pnLen h fs lf pk dl ix rp,
   nth_error (flight c helloLen plens) k = Some (DG pn pnLen h fs lf pk dl ix rp) ->
-  pn = initialPN (c_ipn c) + Z.of_nat k /\
+  pn = c_first c + Z.of_nat k /\
   pnLen = peekPnLen (c_lens c) (c_single c) (pnBase (c_ipn c)) pn /\
   h = 1 + 4 + 1 + c_dcid c + 1 + c_scid c + pnLen + 2 + (vlen (c_tokLen c) + c_tokLen c) /\
   lf = pnLen + (pk - h - 16) + 16 /\
@@ -44,6 +46,29 @@ Theorem C10_pn_len_list : forall lens single ipn i,
   peekPnLen lens single (pnBase ipn) (initialPN ipn + Z.of_nat i) = nth (Nat.min i (length lens - 1)) lens 0.
 Proof. exact t_C10_pn_len_list. Qed.
 Print Assumptions C10_pn_len_list.
+
+(** The connection one Dial re-creates after a Version Negotiation packet continues the packet
+    number space (c_first = InitPacketNumber + k0, k0 packets sent before) and keeps indexing
+    the length list from InitPacketNumber: its k-th packet has number InitPacketNumber + k0 + k
+    and is encoded in entry min(k0 + k, n-1).  (The flight builder's budget, budgetAt, uses the
+    same pnLenOf, so the two sites agree by construction.) *)
+Theorem C10_pn_len_across_recreation : forall c helloLen plens k k0 pn pnLen h fs lf pk dl ix rp,
+  nth_error (flight c helloLen plens) k = Some (DG pn pnLen h fs lf pk dl ix rp) ->
+  c_lens c <> [] -> 0 <= c_ipn c <= 2 ^ 62 - 1 -> c_first c = c_ipn c + Z.of_nat k0 ->
+  Z.of_nat (k0 + k) < 2 ^ 62 ->
+  pn = c_ipn c + Z.of_nat (k0 + k) /\
+  pnLen = nth (Nat.min (k0 + k) (length (c_lens c) - 1)) (c_lens c) 0.
+Proof. exact t_C10_pn_len_across_recreation. Qed.
+Print Assumptions C10_pn_len_across_recreation.
+
+(** Non-vacuity / regression for seeded change C10-c: Chrome_146's numbering after two
+    Initials of the first version -- packet numbers 3 and 4, both in two bytes. *)
+Example C10_pn_len_across_recreation_example :
+  flight {| c_dcid := 8; c_scid := 0; c_ipn := 1; c_first := 3; c_lens := [1; 2]; c_single := 0; c_tokLen := 0;
+            c_bk := BPass; c_plans := []; c_udpMin := 0; c_maxSize := 1280 |} 1734 [] =
+  [DG 3 2 20 [(0, 1240)] 1262 1280 1280 1 false; DG 4 2 20 [(1240, 494)] 517 535 1200 2 false].
+Proof. exact t_C10_pn_len_across_recreation_example. Qed.
+Print Assumptions C10_pn_len_across_recreation_example.
 
 Theorem C10_pn_len_single_default : forall single base pn,
   (single <> 0 -> peekPnLen [] single base pn = single) /\ 2 <= peekPnLen [] 0 base pn <= 4.
@@ -385,7 +410,7 @@ Theorem C10_decryptable :
     (forall pn kp ad p, length (aead_seal pn kp ad p) = (length p + 16)%nat) ->
     forall c helloLen plens k pn pnLen h fs lf pk dl ix rp (mid payload : list Z) largest,
       nth_error (flight c helloLen plens) k = Some (DG pn pnLen h fs lf pk dl ix rp) ->
-      1 <= pnLen <= 4 -> pn < 2 ^ 62 -> 0 <= c_ipn c < 2 ^ 64 ->
+      1 <= pnLen <= 4 -> pn < 2 ^ 62 -> 0 <= c_first c ->
       Z.of_nat (length payload) = pk - h - 16 -> payload <> [] ->
       4 <= pnLen + Z.of_nat (length payload) ->
       (largest = pn - 1 \/ (largest = -1 /\ pn <= 2 ^ (pnLen * 8) / 2)) ->
@@ -437,7 +462,7 @@ Theorem C10_server_reads_back :
       (ver = H_Version1 \/ ver = H_Version2) ->
       zlen dcid = c_dcid c -> zlen scid = c_scid c -> zlen token = c_tokLen c ->
       zlen dcid <= 20 -> zlen scid <= 20 ->
-      1 <= pnLen <= 4 -> pn < 2 ^ 62 -> 0 <= c_ipn c < 2 ^ 64 ->
+      1 <= pnLen <= 4 -> pn < 2 ^ 62 -> 0 <= c_first c ->
       zlen payload = pk - h - 16 -> payload <> [] -> 4 <= pnLen + zlen payload ->
       (largest = pn - 1 \/ (largest = -1 /\ pn <= 2 ^ (pnLen * 8) / 2)) ->
       let hb := initialHeaderBytes ver dcid scid token lf pn pnLen in
